@@ -171,7 +171,7 @@ func checkC02(c *Ctx, w *World) {
 			// paths reaching r without incrementing v must have v == nil
 			avoid := map[*ssa.BasicBlock]bool{}
 			for _, ic := range incCalls {
-				if stripConv(ic.Call.Args[0]) == stripConv(v) {
+				if cellValue(ic.Call.Args[0]) == cellValue(v) {
 					avoid[ic.Block()] = true
 				}
 			}
@@ -184,7 +184,7 @@ func checkC02(c *Ctx, w *World) {
 				if !mayPrecede(incCalls[a], r) {
 					continue
 				}
-				if stripConv(incCalls[a].Call.Args[0]) != stripConv(v) {
+				if cellValue(incCalls[a].Call.Args[0]) != cellValue(v) {
 					multi = "increments a different slot (" + vstr(incCalls[a].Call.Args[0]) + ") than the one returned"
 				}
 				if inLoop(incCalls[a]) {
